@@ -185,7 +185,15 @@ func (f *FailoverOf[V]) Get(
 			return val, nil
 		}
 
-		return f.waitForValue(withoutSkipRead(ctx), key, keyLock)
+		val, err := f.waitForValue(withoutSkipRead(ctx), key, keyLock)
+
+		// Owner that did not build (valid value found with SyncRead, recent failure) has nothing
+		// for a request that skips cache reads, such request makes a new attempt.
+		if SkipRead(ctx) && !keyLock.built {
+			return f.Get(ctx, key, buildFunc)
+		}
+
+		return val, err
 	}
 
 	// Expired value is served if update fails, even if it has expired longer than MaxStaleness.
@@ -215,6 +223,7 @@ func (f *FailoverOf[V]) Get(
 	// Running cache build synchronously.
 	if syncUpdate {
 		keyLock.val, keyLock.err = f.doBuild(ctx, key, val, buildFunc)
+		keyLock.built = true
 		// Return stale value if update fails.
 		if keyLock.err != nil {
 			if f.logWarn != nil {
@@ -246,6 +255,7 @@ func (f *FailoverOf[V]) Get(
 		}()
 
 		keyLock.val, keyLock.err = f.doBuild(ctx, key, val, buildFunc)
+		keyLock.built = true
 		if keyLock.err != nil && f.logWarn != nil {
 			f.logWarn(ctx, "failed to update cache value in background",
 				"error", keyLock.err,
@@ -261,6 +271,9 @@ type klOf[V any] struct {
 	val  V
 	err  error
 	lock chan struct{}
+
+	// built tells waiters that val and err are the outcome of a build, not of a cache read.
+	built bool
 }
 
 func (f *FailoverOf[V]) freshEnough(err error) (val V, _ bool) {
